@@ -51,7 +51,7 @@ def case(ctx, idx, res):
     runner = ctx.cache.get('runner')
     if runner is None:
         runner = ctx.cache['runner'] = XC.Runner(ctx, FLAVOUR)
-    xml, info = gen_xml.gen_tree(r, size=r.choice([8, 15, 25] + ([40, 80] if thorough else [])))
+    xml, info = gen_xml.gen_doc(r, size=r.choice([8, 15, 25] + ([40, 80] if thorough else [])))
     g = gen_xslt.SGen(r, info, avoid=ctx.findings_avoid, max_templates=r.choice([4, 8, 12]), body_depth=r.choice([2, 3, 3, 4]))
     xsl = g.stylesheet()
     kr, vr, p = ref_run(xsl, xml)
